@@ -409,13 +409,15 @@ func (d Dialer) Upgrade(conn io.ReadWriter, u *url.URL) (br *bufio.Reader, hs Ha
 			//   "The server selects one or none of the acceptable protocols
 			//   and echoes that value in its handshake to indicate that it has
 			//   selected that protocol."
+			var matched bool
 			for _, want := range d.Protocols {
 				if string(v) == want {
 					hs.Protocol = want
+					matched = true
 					break
 				}
 			}
-			if hs.Protocol == "" {
+			if !matched {
 				// Server echoed subprotocol that is not present in client
 				// requested protocols.
 				err = ErrHandshakeBadSubProtocol
